@@ -330,3 +330,83 @@ func parseModel(txt string) (Model, error) {
 	}
 	return m, nil
 }
+
+// OneShot runs a fresh solver process on a standalone script (used as fallback when the
+// persistent bit-blasting solver answers unknown): cvc5 with the integer encoding of
+// bit-vector arithmetic, which keeps the mod-2^k semantics.
+func OneShot(argv []string, asserts []*Term, vars []*Term, timeout time.Duration) (Result, Model, error) {
+	tmp := &Solver{defined: map[int]bool{}, declVar: map[string]bool{}}
+	var sb strings.Builder
+	sb.WriteString("(set-logic ALL)\n(set-option :produce-models true)\n")
+	for _, a := range asserts {
+		tmp.define(&sb, a)
+	}
+	for _, v := range vars {
+		tmp.define(&sb, v)
+	}
+	for _, a := range asserts {
+		fmt.Fprintf(&sb, "(assert %s)\n", a.ref())
+	}
+	sb.WriteString("(check-sat)\n")
+	cmd := exec.Command(argv[0], argv[1:]...)
+	cmd.Stdin = strings.NewReader(sb.String())
+	done := make(chan struct{})
+	var out []byte
+	var err error
+	go func() { out, err = cmd.Output(); close(done) }()
+	select {
+	case <-done:
+	case <-time.After(timeout + 2*time.Second):
+		if cmd.Process != nil {
+			cmd.Process.Kill()
+		}
+		<-done
+		return Unknown, nil, nil
+	}
+	txt := strings.TrimSpace(string(out))
+	first, _, _ := strings.Cut(txt, "\n")
+	switch strings.TrimSpace(first) {
+	case "unsat":
+		return Unsat, nil, nil
+	case "sat":
+		if len(vars) == 0 {
+			return Sat, Model{}, nil
+		}
+		// second run asking for the model (cheap: same script + get-value)
+		var q strings.Builder
+		q.WriteString(sb.String())
+		q.WriteString("(get-value (")
+		for _, v := range vars {
+			q.WriteString(v.ref() + " ")
+		}
+		q.WriteString("))\n")
+		cmd2 := exec.Command(argv[0], argv[1:]...)
+		cmd2.Stdin = strings.NewReader(q.String())
+		out2, _ := cmd2.Output()
+		t2 := string(out2)
+		if i := strings.Index(t2, "(("); i >= 0 {
+			if m, e := parseModel(t2[i:]); e == nil {
+				return Sat, m, nil
+			}
+		}
+		return Sat, nil, nil
+	case "unknown", "timeout", "":
+		return Unknown, nil, nil
+	}
+	_ = err
+	return Unknown, nil, fmt.Errorf("fallback solver said: %s", first)
+}
+
+// Standalone returns a self-contained SMT-LIB2 script for the conjunction of asserts.
+func Standalone(asserts []*Term) string {
+	tmp := &Solver{defined: map[int]bool{}, declVar: map[string]bool{}}
+	var sb strings.Builder
+	for _, a := range asserts {
+		tmp.define(&sb, a)
+	}
+	for _, a := range asserts {
+		fmt.Fprintf(&sb, "(assert %s)\n", a.ref())
+	}
+	sb.WriteString("(check-sat)\n")
+	return sb.String()
+}
